@@ -298,3 +298,25 @@ package config
 //@   ensures r1 == nil && typeIs(value, int) ==> option.OptType == OptTypeInt && r0.intVal == int64(asType(value, int))
 //@   ensures r1 == nil && typeIs(value, uint32) ==> option.OptType == OptTypeInt && r0.intVal == int64(asType(value, uint32))
 //@   ensures r1 == nil ==> typeIs(value, string) || typeIs(value, bool) || typeIs(value, []string) || typeIs(value, []any) || option.OptType == OptTypeInt
+
+// ---- C04: saving writes every user-set value, whatever the release level in force
+// SaveConfig: every option that has a user value contributes exactly one entry - the data of that
+// very value - to the map that is serialized, options without a user value contribute none
+// (counted per option visited; A-seq), and the file written is the configured one
+//@ func SaveConfig
+//@   nopanic off
+//@   modifies *
+//@   ghost var need int = 0
+//@   ghost var puts int = 0
+//@   ghost var cur *Option = nil
+//@   ghost var dat any = nil
+//@   ghost var src *valueCache = nil
+//@   at after (*Mutex).Lock ghost cur = option
+//@   at after (*Mutex).Lock ghost need = need + (option.activeValue != nil ? 1 : 0)
+//@   at after (*valueCache).getData ghost dat = ret0
+//@   at after (*valueCache).getData ghost src = arg0
+//@   at mapupdate assert cur != nil && cur.activeValue != nil && src == cur.activeValue && value == dat && puts + 1 == need
+//@   at mapupdate ghost puts = puts + 1
+//@   at call MapToJSON assert need == puts
+//@   at call os.WriteFile assert arg0 == configFilePath && need == puts
+//@   loop 0 invariant need == puts
